@@ -143,7 +143,8 @@ class _InlineFunction(XPathFunction):
         if self.varnames is None:
             self.varnames = []
 
-        assert self.body is not None
+        if self.body is None:
+            raise self.error('XPTY0004', "a function test cannot be called as a function")
         if self.label == 'inline partial function':
             k = 0
             for varname, sequence_type, tk in zip(self.varnames, self.sequence_types, self):
@@ -308,7 +309,8 @@ class _InlineFunction(XPathFunction):
         assert self.label != 'function test', "an effective inline function required"
 
         nargs = len([tk and not tk for tk in self._items if tk.symbol == '?'])
-        assert nargs, "a partial function requires at least a placeholder token"
+        if not nargs:
+            raise self.error('XPTY0004', "a partial function requires at least a placeholder token")
 
         self._name = None  # noqa
         self.label = 'inline partial function'
